@@ -75,9 +75,19 @@ void stamp_ops(int tid, const C19Op *ops, int n)
 
 }  // namespace
 
+// the process-wide stamp counter (a private static member), reached through its linker symbol
+extern char rk_timestamp_global asm("_ZN8rkcommon7utility9TimeStamp6globalE");
+
 extern "C" void c19_run()
 {
   const C19Plan *p = c19_plan();
+  if (p->fast_forward) {
+    // the state after 2^32-24 stamps have been handed out, without handing them out one by one
+    if (sizeof(TimeStamp) == 8)
+      *reinterpret_cast<volatile unsigned long long *>(&rk_timestamp_global) = (1ULL << 32) - 24;
+    else if (sizeof(TimeStamp) == 4)
+      *reinterpret_cast<volatile unsigned int *>(&rk_timestamp_global) = 0xffffffe8u;
+  }
   std::vector<std::thread> ths;
   for (int t = 0; t < p->nthreads; t++)
     ths.emplace_back([=]() { stamp_ops(t + 1, p->ops[t], p->nops[t]); });
